@@ -177,6 +177,9 @@ def subdivide_nodes(nodes):
         left_mat, right_mat = make_subdivision_matrices(num_nodes - 1)
         left_nodes = _py_helpers.matrix_product(nodes, left_mat)
         right_nodes = _py_helpers.matrix_product(nodes, right_mat)
+    # The two halves meet at ``B(1/2)``; the matrix products may round the
+    # two (mathematically identical) dot products differently, so copy.
+    right_nodes[:, 0] = left_nodes[:, -1]
     return left_nodes, right_nodes
 
 
